@@ -68,6 +68,7 @@ func runC16(r *engine.Run) {
 	r.Rule("ORDER-critical", "Insert, Delete, MergeChanges and MergeDB acquire the trie's write lock before the first read of the root and keep it (deferred unlock) until after the last root update: each mutating operation is a single critical section")
 	r.Rule("LOCK-reentrant", "no Lock or RLock of a mutex is reachable while the same goroutine already holds that mutex of the same object: held-on-receiver facts (must-lockset inside a function) are carried into callees only along calls made on the same receiver value, over every call chain; sync mutexes are not reentrant (a second RLock deadlocks as soon as a writer queues up between the two)")
 	r.Rule("PAIR-unlock", "every Lock/RLock of a mutex is followed on every path to a return of the acquiring function by the matching Unlock/RUnlock on the same mutex or by a deferred one registered on the path: no operation returns with the lock held (every later operation on the object would block)")
+	r.Rule("WHO-readonly", "see C06: lookups of the transaction cache never store into its pending map (trie readers run in parallel under the trie's read lock and share one transaction cache)")
 	r.NotDec = append(r.NotDec, "linearizability of histories (needs executions)", "SetVersion concurrent with operations (outside the property's operation set)")
 	const rule = "LOCK-mpt"
 	entries := mptEntries(r, rule)
@@ -81,6 +82,7 @@ func runC16(r *engine.Run) {
 	lockOneSnapshot(r, "LOCK-snapshot")
 	pairUnlock(r, "PAIR-unlock", funcsOfPkg(r, pkgUtil), 10)
 	lockReentrant(r, "LOCK-reentrant", funcsOfPkg(r, pkgUtil), 20)
+	whoReadOnly(r, "WHO-readonly")
 }
 
 func orderCritical(r *engine.Run, w *engine.LockWorld) {
@@ -347,4 +349,17 @@ func lockOneSnapshot(r *engine.Run, rule string) {
 	if n < 3 {
 		r.Anchor(rule, fmt.Errorf("unresolved anchor: %d reads in MerklePatriciaTrie.GetChanges", n))
 	}
+}
+
+// mptLockDiscipline: the guarded-by discipline and the single-critical-section
+// rule of the state trie, for the sequential properties whose operations are
+// exposed to concurrent callers all the same (a mutating operation that works
+// on a root it read outside its critical section loses another writer's
+// update: the root no longer follows the content).
+func mptLockDiscipline(r *engine.Run) {
+	const rule = "LOCK-mpt"
+	entries := mptEntries(r, rule)
+	w := checkGuards(r, rule, entries, mptOwners, mptGuards)
+	r.Min(rule, 60)
+	orderCritical(r, w)
 }
